@@ -11,7 +11,7 @@ import time
 from .. import common, gen, lin, observe, probe
 from ..observe import same
 from ..driver import spell_positionally
-from ..sched import LateHandles, Recorder, Sched
+from ..sched import LateHandles, Recorder, Sched, store_gates
 
 PROP = 'C10'
 LEVEL = 'exploration'
@@ -297,6 +297,8 @@ def schedule(dc, sc, res, rng, label):
     caches = LateHandles(rng, n, lambda: dc.Cache(d, timeout=0), shared=setup if shared else None)
     sch = Sched(rng, clock, strategy=rng.choice(['random', 'preempt', 'random', 'ops']),
                 preempt_points={rng.randrange(0, 120) for _ in range(3)})
+    if store_gates(sch, rng, dc):
+        res.count('schedules_with_attribute_store_gates')
     rec = Recorder(sch)
     big = rng.random() < 0.5
 
@@ -449,6 +451,8 @@ def timed_schedule(dc, sc, res, rng, label):
     caches = LateHandles(rng, n, lambda: dc.Cache(d, timeout=0), shared=setup if shared else None)
     sch = Sched(rng, clock, strategy=rng.choice(['random', 'preempt', 'random', 'ops']),
                 preempt_points={rng.randrange(0, 80) for _ in range(3)})
+    if store_gates(sch, rng, dc):
+        res.count('schedules_with_attribute_store_gates')
     rec = Recorder(sch)
 
     def producer(ci):
